@@ -137,7 +137,7 @@ RandProg(i) ==
 (* ------------------------------------------------------------------ *)
 (* exhaustive depth-1 expressions                                     *)
 (* ------------------------------------------------------------------ *)
-SmallLits == {Undef, Null, True, PZero, Num(1), NaN, Str(<<>>), Str(<<97>>)}
+SmallLits == {Undef, Null, True, PZero, NaN, Str(<<97>>)}
 Opnd(n) == {EProbe(n), EVar("a")} \cup {ELit(v) : v \in SmallLits}
 Targets == {EVar("x"), EMem(ERec), EIdx(ERec, EProbe(3))}
 D1Exprs(u_) ==
@@ -154,7 +154,7 @@ D1Exprs(u_) ==
   \cup {EUn("!", EBin(op, EProbe(1), EProbe(2))) : op \in RelOps \cup EqOps}
   \cup {EUn("!", EUn("!", x)) : x \in Opnd(1)}
   \cup {EUn("typeof", EGlob), EGlob}
-D1Progs == IF DoD1 THEN {InContext(ctx, e) : ctx \in {1, 2, 3}, e \in D1Exprs(0)} ELSE {}
+D1Set == IF DoD1 THEN D1Exprs(0) ELSE {}      \* each expression is put in the contexts 1, 2, 3 by the step
 
 (* ------------------------------------------------------------------ *)
 (* statement skeletons                                                *)
@@ -289,7 +289,7 @@ SkelProgs == IF DoSkel THEN SkIf(0) \cup SkLoop(0) \cup SkSwitch(0) \cup SkTry(0
 Reqs == IF DoReq THEN ndJsonDeserialize("c03_eval.ndjson") ELSE <<>>
 
 VARIABLES kind,   \* "d1" | "skel" | "rnd" | "req"
-          idx,    \* index of a random program / request (0 for the exhaustive families)
+          idx,    \* index of a random program / request; the context number for "d1"; 0 for "skel"
           prog,   \* the program (exhaustive families: chosen in Init; others: built in the step)
           done, out
 
@@ -314,9 +314,10 @@ KindNo(kd) == CASE kd = "d1" -> 1 [] kd = "skel" -> 2 [] kd = "rnd" -> 3 [] kd =
 RECURSIVE Rows(_, _)
 Rows(g, n) == IF n = 0 THEN <<>>
               ELSE LET ri == Draw(g, Q) rj == Draw(ri.g, Q) IN << <<ri.i - 1, rj.i - 1>> >> \o Rows(rj.g, n - 1)
+\* row (0, 0) (every factor undefined, G undeclared, o.k absent) + K seeded rows
 RowsOf(kd, ix, pr) ==
   IF kd = "req" THEN Reqs[ix].rows
-  ELSE Rows([r |-> RngInit(Seed + 7919 * KindNo(kd), IF kd = "rnd" THEN ix ELSE HashL(pr, 1)), np |-> 0], K)
+  ELSE << <<0, 0>> >> \o Rows([r |-> RngInit(Seed + 7919 * KindNo(kd), IF kd = "rnd" THEN ix ELSE HashL(pr, 1)), np |-> 0], K)
 
 RECURSIVE Export(_)
 Export(n) == IF n.k = "lit" THEN [k |-> "lit", v |-> n.v]
@@ -324,7 +325,7 @@ Export(n) == IF n.k = "lit" THEN [k |-> "lit", v |-> n.v]
 
 Outcome(pr, rows) == [r \in 1..Len(rows) |-> Run(pr, EnvOf(rows[r][1], rows[r][2]))]
 
-Init == /\ \/ DoD1 /\ kind = "d1" /\ prog \in D1Progs /\ idx = 0
+Init == /\ \/ DoD1 /\ kind = "d1" /\ idx \in {1, 2, 3} /\ \E e \in D1Set : prog = << e >>
            \/ DoSkel /\ kind = "skel" /\ prog \in SkelProgs /\ idx = 0
            \/ kind = "rnd" /\ idx \in 1..NRand /\ prog = <<>>
            \/ kind = "req" /\ idx \in 1..Len(Reqs) /\ prog = <<>>
@@ -334,7 +335,8 @@ Init == /\ \/ DoD1 /\ kind = "d1" /\ prog \in D1Progs /\ idx = 0
 Next == /\ ~done
         /\ done' = TRUE
         /\ UNCHANGED <<kind, idx>>
-        /\ prog' = CASE kind = "rnd" -> RandProg(idx) [] kind = "req" -> Reqs[idx].prog [] OTHER -> prog
+        /\ prog' = CASE kind = "rnd" -> RandProg(idx) [] kind = "req" -> Reqs[idx].prog
+                      [] kind = "d1" -> InContext(idx, prog[1]) [] OTHER -> prog
         /\ LET rows == RowsOf(kind, idx, prog')
            IN /\ out' = Outcome(prog', rows)
               /\ (Emit => IF kind = "req"
